@@ -17,6 +17,7 @@ VERIF = os.path.dirname(os.path.dirname(os.path.abspath(__file__)))
 def main():
     args = sys.argv[1:]
     n = 6
+    prefix = os.environ.get("SEEDTEST_PREFIX", "vpar")      # several invocations at once need different prefixes
     if args[:1] == ["-j"]:
         n = int(args[1]); args = args[2:]
     seeds = args or sorted(d for d in os.listdir(os.path.join(VERIF, "seeded"))
@@ -32,16 +33,16 @@ def main():
     for k, b in enumerate(buckets):
         if not b:
             continue
-        d = f"/tmp/vpar_{k}"
+        d = f"/tmp/{prefix}_{k}"
         r = subprocess.run(["rsync", "-a", "--delete", "--exclude", ".git", "--exclude", "replays", VERIF + "/", d + "/"])
         assert r.returncode in (0, 24), r.returncode      # 24: a temp file vanished while copying (other processes at work)
-        log = open(f"/tmp/vpar_{k}.log", "w")
+        log = open(f"/tmp/{prefix}_{k}.log", "w")
         procs.append((k, d, subprocess.Popen(["/venv/bin/python", "harness/seedtest.py", *b], cwd=d, stdout=log, stderr=subprocess.STDOUT)))
     merged_path = os.path.join(VERIF, "seeded", "RESULTS_ALL.json")
     merged = json.load(open(merged_path)) if os.path.exists(merged_path) else {}
     for k, d, p in procs:
         p.wait()
-        sys.stdout.write(open(f"/tmp/vpar_{k}.log").read())
+        sys.stdout.write(open(f"/tmp/{prefix}_{k}.log").read())
         try:
             res = json.load(open(os.path.join(d, "seeded", "RESULTS_ALL.json")))
             tested = set(buckets[k])
